@@ -18,6 +18,7 @@ import (
 	"github.com/oasisprotocol/oasis-core/go/common/node"
 	"github.com/oasisprotocol/oasis-core/go/common/quantity"
 	"github.com/oasisprotocol/oasis-core/go/consensus/api/transaction"
+	governance "github.com/oasisprotocol/oasis-core/go/governance/api"
 	registry "github.com/oasisprotocol/oasis-core/go/registry/api"
 	roothash "github.com/oasisprotocol/oasis-core/go/roothash/api"
 	"github.com/oasisprotocol/oasis-core/go/roothash/api/commitment"
@@ -249,6 +250,40 @@ func (n *cnNet) buildTx(spec *cnTxSpec, rng *rand.Rand) ([]byte, error) {
 			return nil, err
 		}
 		tx = roothash.NewExecutorCommitTx(spec.Nonce, fee, runtimeID(spec.To), []commitment.ExecutorCommitment{*ec})
+	case "propose":
+		// spec.Gov selects the content; spec.Amount parameterises it
+		var pc governance.ProposalContent
+		switch spec.Gov {
+		case "gov-deposit":
+			dep := qq(100 + spec.Amount%7)
+			pc.ChangeParameters = &governance.ChangeParametersProposal{Module: governance.ModuleName,
+				Changes: cbor.Marshal(governance.ConsensusParameterChanges{MinProposalDeposit: &dep})}
+		case "sched-maxvals":
+			mv := 2 + int(spec.Amount%3)
+			pc.ChangeParameters = &governance.ChangeParametersProposal{Module: scheduler.ModuleName,
+				Changes: cbor.Marshal(scheduler.ConsensusParameterChanges{MaxValidators: &mv})}
+		case "staking-mintransfer":
+			mt := qq(spec.Amount % 4)
+			pc.ChangeParameters = &governance.ChangeParametersProposal{Module: staking.ModuleName,
+				Changes: cbor.Marshal(staking.ConsensusParameterChanges{MinTransferAmount: &mt})}
+		case "bad-module":
+			pc.ChangeParameters = &governance.ChangeParametersProposal{Module: "no-such-module", Changes: cbor.Marshal(map[string]int{"x": 1})}
+		case "empty":
+			// neither upgrade, cancellation nor parameter change: must fail basic validation
+		default:
+			return nil, fmt.Errorf("unknown proposal content %s", spec.Gov)
+		}
+		tx = governance.NewSubmitProposalTx(spec.Nonce, fee, &pc)
+	case "vote":
+		// spec.Amount is the proposal id, spec.Vote yes | no | abstain
+		v := governance.VoteYes
+		switch spec.Vote {
+		case "no":
+			v = governance.VoteNo
+		case "abstain":
+			v = governance.VoteAbstain
+		}
+		tx = governance.NewCastVoteTx(spec.Nonce, fee, &governance.ProposalVote{ID: uint64(spec.Amount), Vote: v})
 	case "deregentity":
 		tx = registry.NewDeregisterEntityTx(spec.Nonce, fee)
 	case "unfreeze":
